@@ -87,6 +87,16 @@ autoescape answer for the defining template, an explicit `|e`, or the escaping f
 theorem C20_every_dsdl_leaf_escaped : ∀ l ∈ HtmlTpl.leaves, l.origin.isDsdl = true → l.escaped = true := by
   decide
 
+/-- The escaping decision is a function of the target language and the template name only: for the html target it is
+ON for every template name, under every option variation the translator builds the real environment for (output
+extension .xhtml/.txt/.HTML/.htm/.php/empty, namespace file stem, configuration overrides of the html section);
+for another language the real answers are the file-name rule.  (`decide` over the whole generated table.) -/
+theorem C20_escaping_decision_is_language_rule :
+    (∀ r ∈ HtmlTpl.escapingDecisions, r.2.2.2 = autoescapeRule r.1 r.2.2.1) ∧
+    (∀ r ∈ HtmlTpl.escapingDecisions, r.1 = "html" → r.2.2.2 = true) ∧
+    (∀ name, autoescapeRule "html" name = true) := by
+  refine ⟨by decide, by decide, fun _ => by simp [autoescapeRule]⟩
+
 /-- The full per-leaf requirement: additionally, inside JS string literals only restricted-alphabet text, markup and
 macro results only in element content. -/
 theorem C20_every_leaf_ok : ∀ l ∈ HtmlTpl.leaves, l.ok = true := by decide
@@ -224,6 +234,9 @@ def docLeafBeforeFix : Leaf := ⟨"type_info.j2", 60, "t.doc", .doc, .data, fals
 
 example : docLeafBeforeFix.origin.isDsdl = true ∧ docLeafBeforeFix.escaped = false ∧ docLeafBeforeFix.ok = false := by
   decide
+
+example : autoescapeRuleBeforeFix "html" (some "type_info.j2") = false ∧ autoescapeRule "c" (some "page.HTML") = true ∧
+    autoescapeRule "c" (some "type_info.j2") = false ∧ (HtmlTpl.escapingDecisions.filter (·.1 == "html")).length ≥ 60 := by decide
 
 /-- Unescaped, the doc text leaves character data … -/
 example : lexRun .data "</pre><script>alert(1)</script>".toList ≠ .data := by decide
